@@ -46,6 +46,9 @@ def drive_with_restart(ck, shard, shards, extra):
                 continue
             last = e
             break
+        if last and last.get("k") == "Abort":       # the driver gave up on an input whose post-processing did not return (recorded as timeout)
+            skip = last["i"] + 1
+            continue
         if not last or last.get("k") != "Begin":
             raise Infra("C07 driver died without a Begin record (rc=%d): %s" % (p.returncode, p.stdout[-2000:]))
         crashes.append({"k": "Crash", "i": last["i"], "class": last["class"], "boc": last["boc"], "why": p.stdout[-600:]})
@@ -115,6 +118,9 @@ def run(ck):
                 site = "parse" if e["panic"].startswith("parse") else "post"
                 key = "C07:panic:%s:%s" % (site, panic_class(e["panic"]))
                 msg = "panic in DeserializeBoc: " + e["panic"]
+            elif what == "post" and e["post"] == "timeout":
+                key = "C07:post-timeout"
+                msg = "Hash/ToString/ToBoc on a returned root did not return within the allowance"
             elif what == "post":
                 key = "C07:post-panic:" + panic_class(e["post"])
                 msg = "Hash/ToString/ToBoc on a returned root panicked: " + e["post"]
